@@ -209,6 +209,22 @@ func runC14(c *core.Ctx) {
 			}
 			e.text, _ = json.Marshal(doc)
 		}
+		// every schema of the arena renders an epoch in its own time zone (process-wide zone caches are shared by all of them)
+		{
+			var doc map[string]interface{}
+			if json.Unmarshal(e.text, &doc) == nil {
+				if fo, ok := doc["transform_declarations"].(map[string]interface{})["FINAL_OUTPUT"].(map[string]interface{}); ok {
+					if obj, ok := fo["object"].(map[string]interface{}); ok {
+						zone := []string{"America/New_York", "Asia/Tokyo", "Europe/Berlin", "Australia/Adelaide", "Asia/Kolkata", "America/Sao_Paulo", "UTC"}[(c.Idx+len(schemas))%7]
+						obj["when"] = map[string]interface{}{"custom_func": map[string]interface{}{"name": "epochToDateTimeRFC3339", "args": []interface{}{
+							map[string]interface{}{"const": "1234567890"}, map[string]interface{}{"const": "SECOND"}, map[string]interface{}{"const": zone}}}}
+						if b, err := json.Marshal(doc); err == nil {
+							e.text = b
+						}
+					}
+				}
+			}
+		}
 		s, err := omni.NewSchema(e.text)
 		if err != nil {
 			c.Inc("schema_rejected")
